@@ -10,6 +10,7 @@ import (
 	"encoding/hex"
 	"encoding/json"
 	"fmt"
+	wasmvm "github.com/CosmWasm/wasmvm/v2"
 	"io/fs"
 	"os"
 	"path/filepath"
@@ -55,6 +56,7 @@ type Node struct {
 	dir     string
 	db      cosmosdb.DB
 	oldDirs []string
+	vm      *wasmvm.VM
 }
 
 // BlockResult is everything a peer can observe about one block.
@@ -75,7 +77,8 @@ func NewNode(bootstrap func(n *Node, ctx sdk.Context)) *Node {
 	}
 	_ = os.MkdirAll(dir+"/data", 0o755)
 	db := cosmosdb.NewMemDB()
-	n := &Node{App: newApp(dir, db), dir: dir, db: db, Time: Base}
+	a, vm := newApp(dir, db)
+	n := &Node{App: a, vm: vm, dir: dir, db: db, Time: Base}
 	if err := initChain(n.App, defaultGenesis(n.App), 1, Base); err != nil {
 		panic(err)
 	}
@@ -107,7 +110,8 @@ func NewNodeFromExport(appState []byte, height int64, t time.Time) (*Node, error
 	}
 	_ = os.MkdirAll(dir+"/data", 0o755)
 	db := cosmosdb.NewMemDB()
-	n := &Node{App: newApp(dir, db), dir: dir, db: db, Time: t, Height: height}
+	a, vm := newApp(dir, db)
+	n := &Node{App: a, vm: vm, dir: dir, db: db, Time: t, Height: height}
 	if err = initChain(n.App, appState, height+1, t); err != nil {
 		n.Close()
 		return nil, err
@@ -118,6 +122,10 @@ func NewNodeFromExport(appState []byte, height int64, t time.Time) (*Node, error
 func (n *Node) Close() {
 	if n.App != nil {
 		_ = n.App.Close()
+	}
+	if n.vm != nil {
+		n.vm.Cleanup()
+		n.vm = nil
 	}
 	for _, d := range n.oldDirs {
 		os.RemoveAll(d)
@@ -140,7 +148,11 @@ func (n *Node) Restart() {
 	copyTree(n.dir, dir, "exclusive.lock")
 	n.oldDirs = append(n.oldDirs, n.dir)
 	n.dir = dir
-	n.App = newApp(n.dir, n.db)
+	// the dropped process's VM goes with it
+	if n.vm != nil {
+		n.vm.Cleanup()
+	}
+	n.App, n.vm = newApp(n.dir, n.db)
 	if got := n.App.LastBlockHeight(); got != n.Height {
 		panic(fmt.Sprintf("restart: application reloaded height %d, expected %d", got, n.Height))
 	}
